@@ -57,7 +57,7 @@ def model_line(c):
     if u == 'alloc':
         # Model/AllocScore.v: (mode quota tie-orders votes n prev_gains max_seats)
         return '%d (%s %d %s %s %s %d %s %s)' % (
-            BLOCK['C12'] + 4, '(1 1)', 1 if c.get('mode') == 'dist' else 0, {'hare': '(1)', 'droop': '(3)'}[c['quota']],
+            BLOCK['C12'] + 4, AREPAIRS(c), 1 if c.get('mode') == 'dist' else 0, {'hare': '(1)', 'droop': '(3)'}[c['quota']],
             sx(tie_orders(c)), sx([[[[cc, q(s)] for cc, s in sorted(b)], q(w)] for b, w in c['votes']]), c['n'],
             sx([[k, v] for k, v in c.get('prev', [])]), sx([[k, v] for k, v in c.get('max', [])]))
     return '%d (%s %d)' % (U['pav'], '()', 0)          # STAR with an unscored_value: no model (placeholder line)
@@ -66,8 +66,42 @@ def model_line(c):
 _ORDERS = {}
 
 
+_PROBE = {}
+
+
+def probes():
+    """which of the wave-6 repairs the library under test carries (behavioural probes on the recorded witnesses): the
+    flags of Model/Cardinal.v [repairs] / Model/AllocScore.v [arepairs] follow them, so the correspondence stays exact on
+    a tree where a repair is missing - and the crash / mis-shape it repaired is reported there as a VIOLATION (the
+    findings are status fixed), with its replay"""
+    if _PROBE:
+        return _PROBE
+    import votelib.evaluate.cardinal as cd
+
+    def answers(fn):
+        try:
+            return fn()
+        except Exception:   # noqa
+            return None
+    f = lambda **kw: frozenset(kw.items())    # noqa
+    _PROBE['trunc'] = answers(lambda: cd.ScoreVoting('mean', truncation=2).evaluate({f(A=3): 2, f(B=1): 5}, 1)) is not None
+    _PROBE['mj'] = answers(lambda: cd.MajorityJudgment().evaluate({f(A=1): 1, f(B=1): 3}, 1)) is not None
+    # a fractional vote count cannot be expanded to one list element per voter (TypeError from range)
+    _PROBE['counted'] = answers(lambda: cd.ScoreVoting('sum').evaluate({f(A=1): Fraction(3, 2), f(B=0): 1}, 1)) is not None
+    _PROBE['exhausted'] = answers(lambda: cd.AllocatedScoreSelector('hare').evaluate({f(A=5): 4, f(B=5): 2}, 2)) is not None
+    r = answers(lambda: cd.AllocatedScoreSelector('hare').evaluate({f(A=1): 1, f(B=1): 1, f(C=1): 1}, 2))
+    _PROBE['tieseats'] = r is not None and len(r) == 2
+    return _PROBE
+
+
 def REPAIRS(c):
-    return '(1 1 1)'
+    p = probes()
+    return '(%d %d %d)' % (p['trunc'], p['mj'], p['counted'])
+
+
+def AREPAIRS(c):
+    p = probes()
+    return '(%d %d)' % (p['exhausted'], p['tieseats'])
 
 
 def tie_orders(c):
